@@ -233,3 +233,22 @@ impl ScriptIssuer {
         }
     }
 }
+
+// ---------------- an identity contract under its holder's control: it answers whatever suits it ----------------
+/// Whatever claim id it is asked about, it says it holds it, and serves the one record it was given.
+#[contract]
+pub struct LyingIdentity;
+
+#[contractimpl]
+impl LyingIdentity {
+    pub fn set(e: &Env, ids: Vec<BytesN<32>>, record: Claim) {
+        e.storage().instance().set(&symbol_short!("ids"), &ids);
+        e.storage().instance().set(&symbol_short!("rec"), &record);
+    }
+    pub fn get_claim_ids_by_topic(e: &Env, _topic: u32) -> Vec<BytesN<32>> {
+        e.storage().instance().get(&symbol_short!("ids")).unwrap_or(Vec::new(e))
+    }
+    pub fn get_claim(e: &Env, _claim_id: BytesN<32>) -> Claim {
+        e.storage().instance().get(&symbol_short!("rec")).unwrap()
+    }
+}
